@@ -48,6 +48,9 @@ func workerMain(args []string) int {
 	frontierN := fs.Int("frontier", 0, "phase 1: expand breadth-first until this many prefixes are pending, write them to -frontier-file")
 	frontierFile := fs.String("frontier-file", "", "prefix file (written in phase 1, read in phase 2)")
 	share := fs.String("share", "", "phase 2: i/n — explore prefixes i, i+n, ... of -frontier-file")
+	queue := fs.String("queue", "", "shared queue directory (cooperating workers)")
+	workerID := fs.Int("worker-id", 0, "index of this worker in the shared queue")
+	chunk := fs.Int("chunk-paths", 300, "paths explored per claimed chunk before handing work back")
 	cpuprof := fs.String("cpuprofile", "", "write a CPU profile")
 	var overlays, setups overlayList
 	fs.Var(&overlays, "overlay", "real-file=virtual-name-in-package (repeatable)")
@@ -137,7 +140,12 @@ func workerMain(args []string) int {
 				return
 			}
 		}
-		res, err := prog.Explore(f, opt)
+		var res *interp.Result
+		if *queue != "" {
+			res, err = prog.ExploreQueue(f, opt, *queue, *workerID, *chunk)
+		} else {
+			res, err = prog.Explore(f, opt)
+		}
 		if err != nil {
 			wo.Error = "explore: " + err.Error()
 			return
